@@ -716,3 +716,183 @@ Proof.
   - (* Snap *)
     intros H; pinv H; same_tac.
 Qed.
+
+(* ------------------------------------------------------------------ the invariant *)
+Definition RxInv (c : core) (outs : list out) (r : N) (x : rx) : Prop :=
+  r_start x <= r_cur x /\ r_cur x <= c_head c /\
+  (r_taint x = false -> r_reg x = true -> c_head c <= r_cur x + c_cap c) /\
+  (r_reg x = true -> r_live x = true /\ r_closed x = false) /\
+  (r_taint x = false -> r_reg x = false -> r_closed x = true) /\
+  (r_taint x = false -> recvd r outs = slice (c_log c) (r_start x) (r_cur x)) /\
+  (c_fixed c = true -> r_taint x = false).
+
+Record InvC (c : core) (outs : list out) : Prop := {
+  i_cap : 0 < c_cap c;
+  i_nd : NoDup (map fst (c_rxs c));
+  i_none : forall r, c_get c r = None -> recvd r outs = [];
+  i_rx : forall r x, c_get c r = Some x -> RxInv c outs r x;
+  i_s1 : c_closed c = true \/ c_alive c = false -> c_pdrop c = true;
+  i_s2 : c_pdrop c = true -> c_closed c = true \/ c_alive c = false \/ c_taint c = true;
+  i_s3 : c_fixed c = true -> c_taint c = false }.
+
+Lemma minl_le l m x : minl l = Some m -> In x l -> m <= x.
+Proof.
+  revert m. induction l as [|y t IH]; cbn [minl]; intros m Hm Hin; [contradiction|].
+  destruct (minl t) as [m'|] eqn:Em.
+  - inversion Hm; subst. destruct Hin as [->|Hin]; [lia|]. specialize (IH m' eq_refl Hin). lia.
+  - inversion Hm; subst. destruct Hin as [->|Hin]; [lia|]. destruct t; [contradiction|].
+    cbn [minl] in Em. destruct (minl t); discriminate.
+Qed.
+
+Lemma minl_in l m : minl l = Some m -> In m l.
+Proof.
+  revert m. induction l as [|y t IH]; cbn [minl]; intros m Hm; [discriminate|].
+  destruct (minl t) as [m'|] eqn:Em; inversion Hm; subst.
+  - destruct (N.min_spec y m') as [[_ ->]|[_ ->]]; [left; reflexivity | right; apply IH; reflexivity].
+  - left. reflexivity.
+Qed.
+
+Lemma minl_none l : minl l = None -> l = [].
+Proof. destruct l as [|y t]; [reflexivity|]. cbn [minl]. destruct (minl t); discriminate. Qed.
+
+Lemma cursor_in c r x : c_get c r = Some x -> r_reg x = true -> In (r_cur x) (c_cursors c).
+Proof.
+  intros Hg Hr. apply get_In in Hg. unfold c_cursors.
+  apply in_map_iff. exists (r, x). split; [reflexivity|]. apply filter_In. split; [exact Hg|exact Hr].
+Qed.
+
+Lemma in_cursors c m : NoDup (map fst (c_rxs c)) -> In m (c_cursors c) ->
+  exists r x, c_get c r = Some x /\ r_reg x = true /\ r_cur x = m.
+Proof.
+  intros Hnd Hin. unfold c_cursors in Hin. apply in_map_iff in Hin. destruct Hin as ([r x] & Hm & Hf).
+  apply filter_In in Hf. destruct Hf as [Hi Hr]. exists r, x. split; [|split; [exact Hr|exact Hm]].
+  apply In_get; assumption.
+Qed.
+
+Lemma recvd_quiet r outs o : quiet o -> recvd r (outs ++ [o]) = recvd r outs.
+Proof. intros H. rewrite recvd_snoc, H, app_nil_r. reflexivity. Qed.
+
+Lemma slot_vals_window c t k :
+  0 < c_cap c -> t + k <= c_head c -> c_head c <= t + c_cap c ->
+  map (c_slot_val c) (seqN t (N.to_nat k)) = slice (c_log c) t (t + k).
+Proof.
+  intros Hc Hk Hw.
+  replace (t + k) with (t + N.of_nat (N.to_nat k)) by lia.
+  rewrite <- map_nth_seqN by (unfold c_head in Hk; lia).
+  apply map_ext_in. intros i Hi. apply seqN_bounds in Hi.
+  unfold c_slot_val. rewrite slot_index_window; [reflexivity|lia|lia].
+Qed.
+
+Ltac fin :=
+  intros; rewrite ?recvd_quiet by assumption;
+  repeat match goal with
+         | H : (_ || _)%bool = false |- _ => apply orb_false_iff in H; destruct H
+         | H : negb _ = false |- _ => apply negb_false_iff in H
+         end;
+  try match goal with D : r_reg ?x = true -> _ /\ _, Hr : r_reg ?x = true |- _ => destruct (D Hr) end;
+  try match goal with E : r_taint ?x = false -> r_reg ?x = false -> _, H1 : r_taint ?x = false, H2 : r_reg ?x = false |- _ =>
+        specialize (E H1 H2) end;
+  auto; try congruence; try lia.
+
+Ltac rxinv_split := unfold RxInv; split; [|split; [|split; [|split; [|split; [|split]]]]].
+
+Lemma inv_step c outs o c' : InvC c outs -> shape c o c' -> InvC c' (outs ++ [o]).
+Proof.
+  intros I Hs. destruct I as [Icap Ind Inone Irx Is1 Is2 Is3]. destruct Hs.
+  - (* same *)
+    constructor; auto.
+    + intros r Hg. rewrite recvd_quiet by assumption. auto.
+    + intros r x Hg. destruct (Irx r x Hg) as (A & B & C & D & E & F & G).
+      rxinv_split; auto. intros Ht. rewrite recvd_quiet by assumption. auto.
+  - (* send *)
+    constructor; auto.
+    + intros r Hg. rewrite recvd_quiet by assumption. auto.
+    + intros r x Hg. destruct (Irx r x Hg) as (A & B & C & D & E & F & G).
+      change (c_get (with_log c (c_log c ++ vs)) r) with (c_get c r) in Hg.
+      rxinv_split; unfold c_head in *; cbn [with_log c_log c_cap c_fixed]; rewrite ?lenN_app; auto; try lia.
+      * intros Ht Hr. specialize (C Ht Hr).
+        unfold c_space in H0. destruct (minl (c_cursors c)) as [m|] eqn:Em; [|discriminate].
+        inversion H0; subst sp. pose proof (minl_le _ _ _ Em (cursor_in c r x Hg Hr)).
+        unfold c_head in *. lia.
+      * intros Ht. rewrite recvd_quiet by assumption. rewrite slice_app_l by lia. auto.
+  - (* recv *)
+    constructor; auto.
+    + cbn [with_rxs c_rxs]. apply set_NoDup. exact Ind.
+    + intros r0 Hg. unfold c_get in Hg. cbn [with_rxs c_rxs] in Hg.
+      destruct (N.eq_dec r0 r) as [->|Hne]; [rewrite get_set_eq in Hg; discriminate|].
+      rewrite get_set_neq in Hg by exact Hne. rewrite recvd_snoc, H3 by exact Hne. rewrite app_nil_r. auto.
+    + intros r0 x0 Hg. unfold c_get in Hg. cbn [with_rxs c_rxs] in Hg.
+      destruct (N.eq_dec r0 r) as [->|Hne].
+      * rewrite get_set_eq in Hg. inversion Hg; subst x0. clear Hg.
+        destruct (Irx r x H) as (A & B & C & D & E & F & G).
+        change (c_head (with_rxs c (set (c_rxs c) r (adv x k)))) with (c_head c) in *.
+        rxinv_split; cbn [adv r_cur r_start r_reg r_closed r_live r_taint with_rxs c_cap c_log c_fixed];
+          change (c_head (with_rxs c (set (c_rxs c) r (adv x k)))) with (c_head c); auto; try lia.
+        { intros Ht. rewrite recvd_snoc, H2, (F Ht).
+          assert (Hr : r_reg x = true).
+          { destruct (r_reg x) eqn:Er; [reflexivity|]. specialize (E Ht eq_refl). congruence. }
+          specialize (C Ht Hr).
+          rewrite slot_vals_window by lia.
+          rewrite <- slice_split by lia. reflexivity. }
+      * rewrite get_set_neq in Hg by exact Hne.
+        destruct (Irx r0 x0 Hg) as (A & B & C & D & E & F & G).
+        rxinv_split; change (c_head (with_rxs c (set (c_rxs c) r (adv x k)))) with (c_head c);
+          cbn [with_rxs c_cap c_log c_fixed]; auto.
+        intros Ht. rewrite recvd_snoc, H3 by exact Hne. rewrite app_nil_r. auto.
+  - (* receiver flag update *)
+    destruct H2 as (Hcur & Hst & Hcases).
+    constructor; auto.
+    + cbn [with_rxs c_rxs]. apply set_NoDup. exact Ind.
+    + intros r0 Hg. unfold c_get in Hg. cbn [with_rxs c_rxs] in Hg.
+      destruct (N.eq_dec r0 r) as [->|Hne]; [rewrite get_set_eq in Hg; discriminate|].
+      rewrite get_set_neq in Hg by exact Hne. rewrite recvd_quiet by assumption. auto.
+    + intros r0 x0 Hg. unfold c_get in Hg. cbn [with_rxs c_rxs] in Hg.
+      destruct (N.eq_dec r0 r) as [->|Hne].
+      * rewrite get_set_eq in Hg. inversion Hg; subst x0. clear Hg.
+        destruct (Irx r x H0) as (A & B & C & D & E & F & G).
+        destruct Hcases as [(R1 & R2 & R3)|[(R1 & R2 & R3 & R4)|(R0 & R1 & R2 & R3 & R4)]];
+          rxinv_split; change (c_head (with_rxs c (set (c_rxs c) r x'))) with (c_head c);
+          cbn [with_rxs c_cap c_log c_fixed]; rewrite ?Hcur, ?Hst, ?R1, ?R2, ?R3, ?R4; fin.
+        { split; [|assumption]. destruct R4; congruence. }
+      * rewrite get_set_neq in Hg by exact Hne.
+        destruct (Irx r0 x0 Hg) as (A & B & C & D & E & F & G).
+        rxinv_split; change (c_head (with_rxs c (set (c_rxs c) r x'))) with (c_head c);
+          cbn [with_rxs c_cap c_log c_fixed]; auto.
+        intros Ht. rewrite recvd_quiet by assumption. auto.
+  - (* clone *)
+    destruct H3 as (Hcur & Hst & Hlive & Hcases).
+    constructor; auto.
+    + cbn [with_rxs c_rxs]. apply set_NoDup. exact Ind.
+    + intros r0 Hg. unfold c_get in Hg. cbn [with_rxs c_rxs] in Hg.
+      destruct (N.eq_dec r0 cid) as [->|Hne]; [rewrite get_set_eq in Hg; discriminate|].
+      rewrite get_set_neq in Hg by exact Hne. rewrite recvd_quiet by assumption. auto.
+    + intros r0 x0 Hg. unfold c_get in Hg. cbn [with_rxs c_rxs] in Hg.
+      destruct (N.eq_dec r0 cid) as [->|Hne].
+      * rewrite get_set_eq in Hg. inversion Hg; subst x0. clear Hg.
+        destruct (Irx r x H0) as (A & B & C & D & E & F & G).
+        destruct Hcases as [(R1 & R2 & R3 & R4)|(R0 & R1 & R2 & R3 & R4)];
+          rxinv_split; change (c_head (with_rxs c (set (c_rxs c) cid xc))) with (c_head c);
+          cbn [with_rxs c_cap c_log c_fixed]; rewrite ?Hcur, ?Hst, ?R1, ?R2, ?R3, ?R4, ?Hlive; auto; try lia; try congruence.
+        { intros Ht _. apply orb_false_iff in Ht. destruct Ht as [Ht Hr]. apply negb_false_iff in Hr. auto. }
+        { intros Ht. rewrite recvd_quiet by assumption. rewrite (Inone cid H2), slice_nil. reflexivity. }
+        { intros Hf. destruct R4 as [R4|R4]; [congruence|]. rewrite (G Hf). cbn [orb].
+          apply negb_false_iff. destruct (r_reg x) eqn:Er; [reflexivity|]. specialize (E (G Hf) eq_refl). congruence. }
+        { intros Ht. rewrite recvd_quiet by assumption. rewrite (Inone cid H2), slice_nil. reflexivity. }
+      * rewrite get_set_neq in Hg by exact Hne.
+        destruct (Irx r0 x0 Hg) as (A & B & C & D & E & F & G).
+        rxinv_split; change (c_head (with_rxs c (set (c_rxs c) cid xc))) with (c_head c);
+          cbn [with_rxs c_cap c_log c_fixed]; auto.
+        intros Ht. rewrite recvd_quiet by assumption. auto.
+  - (* sender lifecycle *)
+    destruct H0 as (Ha & Hcases).
+    constructor; cbn [with_sender c_cap c_rxs c_closed c_alive c_pdrop c_taint c_fixed]; auto.
+    + intros r Hg. rewrite recvd_quiet by assumption. auto.
+    + intros r x Hg. destruct (Irx r x Hg) as (A & B & C & D & E & F & G).
+      rxinv_split; auto. intros Ht. rewrite recvd_quiet by assumption. auto.
+    + destruct Hcases as [(R1 & -> & -> & -> & ->)|[(-> & -> & -> & [->|[R1 ->]])|(R0 & -> & -> & -> & ->)]]; auto.
+      intros [?|?]; congruence.
+    + destruct Hcases as [(R1 & -> & -> & -> & ->)|[(-> & -> & -> & [->|[R1 ->]])|(R0 & -> & -> & -> & ->)]]; auto.
+      intros Hp. destruct (Is2 Hp) as [Hc|[Hc|Hc]]; [|congruence|]; right; right; rewrite Hc; auto using orb_true_r.
+    + destruct Hcases as [(R1 & -> & -> & -> & ->)|[(-> & -> & -> & [->|[R1 ->]])|(R0 & -> & -> & -> & ->)]]; auto.
+      congruence.
+Qed.
